@@ -110,6 +110,38 @@ def crash_enumeration(rec):
                                       f'after a normal save: output complete={_is_complete(out, fmt)}, backup exists={bak.exists()}', inp)
 
 
+def resume_keeps_files(rec):
+    """preparing the output files of a *resumed* run (fix_output_filenames with loaded_from_checkpoint) must not destroy
+    a complete results file: all entry states x overwrite_output, real file system"""
+    from tenpy.simulations.simulation import Simulation
+    names = {0: 'absent', 1: 'partial', 2: 'complete'}
+    good = pickle.dumps({'checkpoint': 'old', 'data': list(range(40))})
+    for O in (0, 1, 2):
+        for B in (0, 1, 2):
+            for ow in (False, True):
+                with tempfile.TemporaryDirectory() as d:
+                    out = pathlib.Path(d) / 'results.pkl'
+                    bak = pathlib.Path(d) / 'results.backup.pkl'
+                    for p, st in ((out, O), (bak, B)):
+                        if st == 1:
+                            p.write_bytes(good[:len(good) // 2])
+                        elif st == 2:
+                            p.write_bytes(good)
+                    stub = types.SimpleNamespace(options={'overwrite_output': ow, 'skip_if_output_exists': False, 'safe_write': True},
+                                                 loaded_from_checkpoint=True, get_output_filename=lambda: str(out))
+                    stub.get_backup_filename = lambda fn: Simulation.get_backup_filename(stub, fn)
+                    before = (_is_complete(out, 'pkl'), _is_complete(bak, 'pkl'))
+                    rec.begin(f'C18 fix_output_filenames resume O={names[O]} B={names[B]} overwrite={ow}')
+                    ok, _ = rec.guarded('fix_output_filenames:exception', lambda: Simulation.fix_output_filenames(stub),
+                                        {'output': names[O], 'backup': names[B]})
+                    after = (_is_complete(out, 'pkl'), _is_complete(bak, 'pkl'))
+                    rec.case(('fix', O, B, ow), before[0] or before[1])
+                    rec.check((not before[0] or after[0]) and (not before[1] or after[1]),
+                              f'fix_output_filenames[resume]:destroys-complete-file[output={names[O]},backup={names[B]}]',
+                              f'complete (output, backup) before {before}, after {after}',
+                              {'output_file': names[O], 'backup_file': names[B], 'overwrite_output': ow})
+
+
 def stop_after_checkpoint(algorithm, stop_at, counter):
     counter['n'] += 1
     if counter['n'] == stop_at:
@@ -206,4 +238,5 @@ def run(rec):
     rec.bounds = {'file_states': 9, 'crash_points': '4 fs steps + 5 byte prefixes', 'formats': ['pkl', 'h5'], 'checkpoints': 3 if quick else 6}
     rec.exhaustive = True
     crash_enumeration(rec)
+    resume_keeps_files(rec)
     resume_equals_uninterrupted(rec, quick)
